@@ -246,6 +246,115 @@ pub(super) fn wb_descend(mv: &Move, extension: usize) {
     }
 }
 
+// ---- sampled quiescence events ---------------------------------------------------------------
+// Every `QS_EVERY`-th capture search started below the horizon is logged node by node (at most
+// `QS_BUDGET` events per thread and search; when it runs out inside one, `QAbandon` is logged and
+// the rest of that capture search is silent).
+
+static QS_EVERY: AtomicUsize = AtomicUsize::new(0);
+static QS_BUDGET: AtomicUsize = AtomicUsize::new(0);
+
+thread_local! {
+    static QS_CALLS: Cell<usize> = Cell::new(0);
+    static QS_LEFT: Cell<usize> = Cell::new(0);
+    static QS_ACTIVE: Cell<bool> = Cell::new(false);
+    static QS_NEST: Cell<usize> = Cell::new(0);
+}
+
+pub fn set_qs_sampling(every: usize, budget: usize) {
+    QS_EVERY.store(every, Ordering::SeqCst);
+    QS_BUDGET.store(budget, Ordering::SeqCst);
+}
+
+fn qs_reset_thread() {
+    QS_CALLS.with(|c| c.set(0));
+    QS_LEFT.with(|c| c.set(QS_BUDGET.load(Ordering::Relaxed)));
+    QS_ACTIVE.with(|c| c.set(false));
+    QS_NEST.with(|c| c.set(0));
+}
+
+/// `analyze_recursive` hands the node over to the capture search.
+pub(super) fn wb_quiesce() {
+    if wb_on() {
+        let every = QS_EVERY.load(Ordering::Relaxed);
+        let n = QS_CALLS.with(|c| {
+            let v = c.get();
+            c.set(v + 1);
+            v
+        });
+        let detail = every > 0 && n % every == 0 && QS_LEFT.with(|c| c.get()) > 0;
+        QS_ACTIVE.with(|c| c.set(detail));
+        QS_NEST.with(|c| c.set(0));
+        emit(format!("\"ev\":\"Quiesce\",\"detail\":{}", detail));
+    }
+}
+
+fn qs_emit(body: String) {
+    if QS_ACTIVE.with(|c| c.get()) {
+        let left = QS_LEFT.with(|c| c.get());
+        if left == 0 {
+            QS_ACTIVE.with(|c| c.set(false));
+            emit("\"ev\":\"QAbandon\"".to_string());
+        } else {
+            QS_LEFT.with(|c| c.set(left - 1));
+            emit(body);
+        }
+    }
+}
+
+pub(super) fn q_enter(depth: usize, alpha: eval::Evaluation, beta: eval::Evaluation) {
+    if wb_on() {
+        QS_NEST.with(|c| c.set(c.get() + 1));
+        qs_emit(format!(
+            "\"ev\":\"QEnter\",\"depth\":{},\"alpha\":{},\"beta\":{}",
+            depth,
+            i32::from(alpha),
+            i32::from(beta)
+        ));
+    }
+}
+
+pub(super) fn q_static(value: eval::Evaluation, quiet: bool) {
+    if wb_on() {
+        qs_emit(format!("\"ev\":\"QStatic\",\"static\":{},\"quiet\":{}", i32::from(value), quiet));
+    }
+}
+
+pub(super) fn q_descend(mv: &Move) {
+    if wb_on() {
+        qs_emit(format!("\"ev\":\"QDescend\",\"mv\":{}", move_json(mv)));
+    }
+}
+
+pub(super) fn q_child(value: eval::Evaluation) {
+    if wb_on() {
+        qs_emit(format!("\"ev\":\"QChild\",\"value\":{}", i32::from(value)));
+    }
+}
+
+/// A capture-search node returns (`name` is QTerminal or QReturn).
+pub(super) fn q_leave(name: &str, value: eval::Evaluation) {
+    if wb_on() {
+        qs_emit(format!("\"ev\":\"{}\",\"value\":{}", name, i32::from(value)));
+        let nest = QS_NEST.with(|c| {
+            let v = c.get().saturating_sub(1);
+            c.set(v);
+            v
+        });
+        if nest == 0 {
+            QS_ACTIVE.with(|c| c.set(false));
+        }
+    }
+}
+
+pub(super) fn q_interrupt() {
+    if wb_on() {
+        QS_ACTIVE.with(|c| c.set(false));
+        QS_NEST.with(|c| c.set(0));
+        emit("\"ev\":\"Interrupt\"".to_string());
+    }
+}
+
 // ---- workers and the seeded scheduler ------------------------------------------------------
 
 struct Sched {
@@ -312,6 +421,7 @@ pub struct WorkerGuard {
 
 pub(super) fn worker_enter(id: usize, count: usize, depth: usize, search_depth: usize) -> WorkerGuard {
     set_thread_tag(id);
+    qs_reset_thread();
     if wb_on() {
         emit(format!(
             "\"ev\":\"WorkerStart\",\"iter\":{},\"search_depth\":{},\"workers\":{}",
